@@ -426,6 +426,34 @@ Fixpoint pe (fuel : nat) (left right : list entry) (ob : ob_map2) : option (list
     end
   end.
 
+(* the specification the opener lower bounds only optimise: the same loop, but
+   every search for an opener scans the whole stack *)
+Fixpoint pe_naive (fuel : nat) (left right : list entry) : option (list entry) :=
+  match fuel with
+  | O => None
+  | S f =>
+    match right with
+    | [] => Some left
+    | EItem i :: r => pe_naive f (EItem i :: left) r
+    | EDelim c :: r =>
+      if negb (d_close c) then pe_naive f (EDelim c :: left) r
+      else
+        match find_opener left None c with
+        | None =>
+          if d_open c then pe_naive f (EDelim c :: left) r
+          else pe_naive f (EItem (demote (EDelim c)) :: left) r
+        | Some (btw, o, rest) =>
+          let strong := Nat.leb 2 (d_rem o) && Nat.leb 2 (d_rem c) in
+          let k := if strong then 2%nat else 1%nat in
+          let o' := use o k in
+          let c' := use c k in
+          let node := INode strong (map demote (rev btw)) in
+          let left' := EItem node :: (if Nat.eqb (d_rem o') 0 then rest else EDelim o' :: rest) in
+          if Nat.eqb (d_rem c') 0 then pe_naive f left' r else pe_naive f left' (EDelim c' :: r)
+        end
+    end
+  end.
+
 (* decreasing measure of the loop: remaining delimiter text plus what is still
    to be scanned *)
 Fixpoint rem_sum (l : list entry) : nat :=
